@@ -29,7 +29,7 @@ from ..refs import post as ref
 
 LEVEL = "model_checking"
 ASSUMPTIONS = [
-    "accumulate_bfs: data sets are n integer-valued vectors (n <= 5 quick, 6 thorough; F in {1,3} "
+    "accumulate_bfs: data sets are n integer-valued vectors (n = 5, one configuration 6 quick; 6..8 thorough; F in {1,3} "
     "coefficients; mixed-sign, all-negative and large-magnitude variants), so every order of "
     "accumulation yields bit-identical statistics and states merge exactly; probes are generic "
     "real-valued tensors",
@@ -158,7 +158,7 @@ class Ctx:
         self.bad_2d = sig.ro(np.arange(2.0 * (F + 1)).reshape(2, F + 1))
 
     def tags(self, **kw):
-        t = dict(norm_var=self.norm_var, start=self.c["start"])
+        t = dict(norm_var=self.norm_var)
         t.update(kw)
         return t
 
@@ -191,9 +191,9 @@ def _observe(ctx, obj, sub, where):
             arg = x if not in_place else np.array(x, copy=True)
             with warnings.catch_warnings():
                 warnings.simplefilter("ignore")
-                r = computers.call(obj.apply, arg, in_place=in_place) if axis is None else \
+                r = computers.call(lambda: obj.apply(arg, in_place=in_place)) if axis is None else \
                     computers.call(obj.apply, arg, axis, in_place)
-            tags = ctx.tags(probe=name.split(":")[0], in_place=in_place)
+            tags = ctx.tags(probe=name.split(":")[0].rstrip("0"))
             if r[0] != "ok":
                 viol.append(core.violation(dict(tags, what="apply_exception", exc=r[1]),
                                            "%s: apply(%s) raised %s: %s" % (where, name, r[1], r[2])))
@@ -221,8 +221,8 @@ def _observe(ctx, obj, sub, where):
                 i = np.unravel_index(np.argmax(err), err.shape)
                 viol.append(core.violation(
                     dict(tags, what="apply_values"),
-                    "%s: apply(%s)%s = %r; (x-mean)/std of the %d accumulated vectors = %r "
-                    "(mean %r, var %r)" % (where, name, list(map(int, i)), float(got[i]), len(sub),
+                    "%s: apply(%s, in_place=%s)%s = %r; (x-mean)/std of the %d accumulated vectors = %r "
+                    "(mean %r, var %r)" % (where, name, in_place, list(map(int, i)), float(got[i]), len(sub),
                                            float(want[i]), mean.tolist(), var.tolist())))
     return viol, compared
 
@@ -249,7 +249,7 @@ def _step(ctx, s, op):
         x, axis = _present(ctx.data, op[1], op[2], ctx.F)
         pristine = np.array(x, copy=True)
         r = computers.call(obj.accumulate, x) if axis is None else computers.call(obj.accumulate, x, axis)
-        pk = op[2].split(":")[0]
+        pk = op[2].split(":")[0].replace("rev", "2d")
         if r[0] != "ok":
             return None, [core.violation(
                 ctx.tags(what="accumulate_exception", pres=pk, exc=r[1]),
@@ -380,8 +380,11 @@ def _configs(tier):
             for F in (3, 1):
                 out.append(dict(n=n, F=F, norm_var=norm_var, data=data, start="empty"))
             out.append(dict(n=n, F=2, norm_var=norm_var, data=data, start="loaded"))
+    big = [dict(n=n + 1, F=3, norm_var=True, data="mixed", start="empty")]
     if tier == "thorough":
-        out.append(dict(n=7, F=2, norm_var=True, data="mixed", start="empty"))
+        big.append(dict(n=7, F=2, norm_var=False, data="negative", start="empty"))
+        big.insert(0, dict(n=8, F=2, norm_var=True, data="mixed", start="empty"))
+    out = big + out  # longest explorations first (one point = one worker)
     return out
 
 
@@ -458,7 +461,7 @@ def _eval_local(pt, seed):
                                                case))
                 obs.add((norm_var, in_place, count > 2))
     return core.result(viol, evals=evals, nontrivial_count=nontriv, skipped=skipped or None,
-                       obs=sorted(map(str, obs)),
+                       obs=sorted(map(str, obs)), obs_is_set=True,
                        sample=dict(shape=list(shape), dtype=dtype, norm_var=norm_var,
                                    inner="axis -ndim..ndim-1 x in_place"))
 
@@ -547,7 +550,7 @@ def _eval_global(pt, seed):
                 viol.extend(v)
                 obs.add((o, len(shape), in_place))
     return core.result(viol, evals=evals, nontrivial_count=nontriv, obs=sorted(map(str, obs)),
-                       sample=dict(F=F, norm_var=norm_var, dtype=dtype,
+                       obs_is_set=True, sample=dict(F=F, norm_var=norm_var, dtype=dtype,
                                    inner="every 1..3-D shape holding an axis of F-1, F or F+1 "
                                          "coefficients x every axis x in_place"))
 
@@ -572,7 +575,7 @@ def subchecks(tier, seed):
             "remaining vectors x 12-17 presentations) on one real Standardize; apply() of 8 probes x "
             "in_place observed after every transition and compared with the direct formula over the "
             "model's vectors; refusals of mismatching dimensions in every state with statistics",
-            axes=dict(n="5 (quick) / 6, 7 (thorough)", F=[1, 2, 3], norm_var=[True, False],
+            axes=dict(n="5 and one configuration with 6 (quick) / 6, 7, 8 (thorough)", F=[1, 2, 3], norm_var=[True, False],
                       data=["mixed", "negative", "large"], start=["empty", "loaded"],
                       presentations=_presentations(1) + ["rev"]),
             replay=lambda case: explore_config(case["config"], seed, replay_ops=case["ops"]),
